@@ -118,7 +118,8 @@ def _cmp_argument(a, b):
     elif x > y:
         return 1
     else:
-        return 0
+        # Same number and part, still different unless the function spaces agree
+        return _cmp_function_space(a, b)
 
 
 def _cmp_terminal_by_repr(a, b):
